@@ -266,6 +266,8 @@ func runC20(c *Check) {
 	}
 	c.Doc("C20-R5", "EO: every mutation of the carry-over list is followed by Save before the method returns.")
 	ruleCarryOverDurable(c, p)
+	c.Doc("C20-R6", "EO: no error return of GetNextBatch is reachable after the durable pop of the carry-over queue.")
+	rulePoppedNotDiscarded(c, p, g, fnb)
 	c.MinInstances("C20-R1", 1)
 	c.MinInstances("C20-R2", 1)
 	c.MinInstances("C20-R3", 1)
@@ -311,5 +313,42 @@ func ruleCarryOverDurable(c *Check, p *Prog) {
 	}
 	if n < 2 {
 		c.Unk(rule, "carry-over-queue-mutators", "", "", fmt.Sprintf("anchor lost: %d mutating methods of the carry-over queue (2 confirmed by hand)", n))
+	}
+}
+
+// rulePoppedNotDiscarded (C20-R6): PopUpToMaxBytes removes the carried-over transactions from
+// the durable queue; after it, GetNextBatch must not return an error (the response carrying the
+// popped transactions would be discarded and they would never be released).
+func rulePoppedNotDiscarded(c *Check, p *Prog, g *Graph, fnb *ssa.Function) {
+	rule := "C20-R6"
+	pops := g.Select(func(n *Node) bool { return strings.HasSuffix(CallName(n), "based.PersistentPendingTxs).PopUpToMaxBytes") })
+	if len(pops) == 0 {
+		c.Unk(rule, "GetNextBatch ⟂ pop", fnName(fnb), "", "anchor lost: the carry-over queue is not popped in GetNextBatch")
+		return
+	}
+	n := 0
+	for _, x := range g.Exits {
+		if g.ExitClass(x) != rcA {
+			continue
+		}
+		xx := x
+		path := g.PathAvoiding(pops, func(nd *Node) bool { return nd == xx }, nil)
+		if path == nil {
+			continue
+		}
+		n++
+		// name the failing condition
+		cond := ""
+		for _, pn := range path {
+			if pn.Kind == NTrue || pn.Kind == NFalse {
+				t, pol := CondTerm(pn)
+				t, pol = normFact(t, pol)
+				cond = genericName(shortCond(t, pol))
+			}
+		}
+		c.Bad(rule, "GetNextBatch ⟂ error-return-after-pop ⟂ "+cond, fnName(fnb), p.InstrPos(x.In), "GetNextBatch can return an error after the carried-over transactions were popped (and the shortened queue persisted): the response is discarded and those transactions are never released, not even after a restart", g.DescribePath(path))
+	}
+	if n == 0 {
+		c.OK(rule, "GetNextBatch ⟂ no-error-return-after-pop", fnName(fnb), p.InstrPos(pops[0].In), "no error return is reachable after the carry-over queue was popped", true)
 	}
 }
